@@ -1,6 +1,9 @@
 /-!
 # CalcSteps: planning of a memory-optimised run (`TraceManager.get_calcsteps`)
 
+State of /repo described: 83edc16 (`finally` also when a target fails) and 77e9cc3 (`generate_actions`
+also plans and clears the values the model held before that the targets were calculated from).
+
 Mirrors `TraceManager.get_calcsteps` in `modelx/core/model.py` (the body of the `while` loop,
 statement by statement) as a pure function of
 
@@ -211,13 +214,36 @@ under the stack trace; the `ENTER` entries (= the `log`) are collected in `calcu
 def traceTargets (preds : Node → List Node) (fuel : Nat) (targets : List Node) (c : Cache) : Cache :=
   targets.foldl (fun c t => if t ∈ c.inputs then c else evalNode preds fuel t c) c
 
-/-- `calculated` of `Model.generate_actions` -/
+/-- the ENTER entries of the stack trace: the elements whose formulas ran while the targets were
+evaluated (`calculated` before the loop over the trace graph) -/
 def calculated (preds : Node → List Node) (fuel : Nat) (targets : List Node) (c : Cache) : List Node :=
   (traceTargets preds fuel targets c).log.drop c.log.length
 
+/-- `itertools.chain((n,), nx.ancestors(graph, n))`: `n` and everything it was calculated from –
+backwards along the trace edges -/
+def withAncs (edges : List (Node × Node)) (n : Node) : List Node :=
+  withDescs (edges.map (fun e => (e.2, e.1))) n
+
+/-- what `generate_actions` adds from the trace graph since 77e9cc3: the values the model held
+BEFORE (they have a value, so their formulas did not run and the trace does not show them) that a
+target which is not a user input was calculated from, and such a target itself – unless they are
+user inputs.  (The order is that of a Python set; nothing depends on it.) -/
+def preHeld (preds : Node → List Node) (fuel : Nat) (targets : List Node) (c : Cache) : List Node :=
+  (((targets.filter (fun t => !decide (t ∈ c.inputs) && decide (t ∈ (traceTargets preds fuel targets c).held))).flatMap
+      (withAncs (traceTargets preds fuel targets c).edges)).eraseDups).filter
+    (fun p => !decide (p ∈ calculated preds fuel targets c) && !decide (p ∈ c.inputs))
+
+/-- the nodes handed to `get_calcsteps` and cleared by the `finally` clause -/
+def planned (preds : Node → List Node) (fuel : Nat) (targets : List Node) (c : Cache) : List Node :=
+  calculated preds fuel targets c ++ preHeld preds fuel targets c
+
 /-- the state `Model.generate_actions` leaves: its `finally` clause clears every node of
-`calculated` (`n[OBJ].clear_value_at(n[KEY])`) -/
+`calculated` – traced or taken from the graph – (`n[OBJ].clear_value_at(n[KEY])`) -/
 def generateLeaves (preds : Node → List Node) (fuel : Nat) (targets : List Node) (c : Cache) : Cache :=
+  (planned preds fuel targets c).foldl (fun c n => clearAt n c) (traceTargets preds fuel targets c)
+
+/-- `generate_actions` BEFORE 77e9cc3: only what the trace shows is cleared (and planned) -/
+def generateLeavesTraceOnly (preds : Node → List Node) (fuel : Nat) (targets : List Node) (c : Cache) : Cache :=
   (calculated preds fuel targets c).foldl (fun c n => clearAt n c) (traceTargets preds fuel targets c)
 
 end MxModel.CalcSteps
